@@ -174,7 +174,7 @@ impl Prop for C05Prop {
                 let mut l = LinkScn::new("C05", sub, fe, buf);
                 let mix = StreamMix::draw(rng, 300);
                 l.segs = gen::gen_segs(rng, tier, &mix);
-                l.extra_polls = *rng.pick(&[0usize, 1, 2, 64]);
+                l.extra_polls = *rng.pick(&[0usize, 1, 2, 64, 300, 70_000]);
                 Scenario::Link(l)
             }
             "reader" => {
@@ -213,7 +213,7 @@ impl Prop for C05Prop {
                         max_events: if rng.chance(1, 4) { Some(rng.below(4) as u16) } else { None },
                     })
                     .collect();
-                l.extra_polls = *rng.pick(&[0usize, 1, 3, 64]);
+                l.extra_polls = *rng.pick(&[0usize, 1, 3, 64, 300]);
                 if buf == BufKind::Vec && rng.chance(1, 3) {
                     l.alloc_fail = rng.range(1, 8) as u64;
                 }
@@ -251,7 +251,7 @@ impl Prop for C05Prop {
                 if buf == BufKind::Vec && rng.chance(2, 3) {
                     l.alloc_fail = rng.range(1, 10) as u64;
                 }
-                l.extra_polls = 64;
+                l.extra_polls = *rng.pick(&[64usize, 64, 64, 300, 300, 70_000]);
                 Scenario::Link(l)
             }
         }
